@@ -51,6 +51,8 @@ func c08r1(c *core.Ctx) {
 			continue
 		}
 		n++
+		// the error test behind Encrypt has its polarity (a failed seal does not go on to the socket, a successful one does)
+		errorTestPolarity(c, f, func(i ssa.Instruction) bool { ok, _ := isPanicCall(i); return ok })
 		writes := core.FindCalls(f, rawSocketWrite)
 		for _, e := range encs {
 			ok, why := inCriticalSection(f, e, mutexOfConn)
